@@ -337,6 +337,9 @@ def run_case(case):
             for bad in (0, -1, -3, 2.0, 2.5, "3"):
                 for other in (1, 4, 7):
                     probes.append(("batch_size", bad, dict(num_samples=other), lambda b=bad, o=other: obj.sample(o, cc, batch_size=b)))
+            # the same counts through sample_and_log_prob (which validates on its own path in a Flow: embedding, base, transform)
+            for bad in (0, -1, -3, 2.0, 2.5, "3", None):
+                probes.append(("num_samples (sample_and_log_prob)", bad, {}, lambda b=bad: obj.sample_and_log_prob(b, cc)))
             for which, bad, extra, call in probes:
                 r.count("rejection_probes")
                 try:
